@@ -188,11 +188,33 @@ Definition spec_conflict (s : schema) (table : string) (o : op) (selects omits :
 
 Definition all_new (cells : list cell) : bool := forallb (fun x => is_new (c_row x)) cells.
 
+(* When may a statement be refused at all?  "Save writes all fields ..." / "tracked update-time fields are refreshed
+   by every hook-running update": a write the property demands cannot be replaced by an error.  A Save of a
+   stored row is an UPDATE by its key and is never refused; an update is refused only when it has no condition
+   at all (neither a key in the model value nor a Where: ErrMissingWhereClause) or when it targets several rows
+   (writing one key value into several rows violates the key's uniqueness).  Creates and upserts may be refused
+   by the database (duplicate key, no insertable column, DEFAULT placeholders). *)
+Definition unconditional (mk : mkey) (where_ids : option (list Z)) : bool :=
+  match where_ids with
+  | Some _ => false
+  | None => match mk with MStruct m => forallb (Z.eqb 0) m | MSlice l => forallb (Z.eqb 0) l end
+  end.
+Definition may_fail (o : op) (p : payload) (stored : list srow) (model_key : mkey)
+           (where_ids : option (list Z)) : bool :=
+  match o with
+  | OSave => negb (mem_z (fst p) (map fst stored))
+  | OUpdatesStruct | OUpdateColumnsStruct | OUpdatesMap | OUpdateColumnsMap =>
+      unconditional model_key where_ids
+      || (1 <? Z.of_nat (length (filter (in_rows model_key where_ids) stored)))
+  | _ => true
+  end.
+
 Definition spec_case (s : schema) (table : string) (o : op) (selects omits : list sitem)
   (ps : list payload) (stored : list srow) (model_key : mkey) (where_ids : option (list Z))
   (cells : list cell) (err : bool) : bool :=
   let p := match ps with p :: _ => p | [] => (0, []) end in
-  if err then match cells with [] => true | _ => false end      (* a failed statement writes nothing *)
+  if err then match cells with [] => may_fail o p stored model_key where_ids | _ => false end
+       (* a failed statement writes nothing, and only a statement that may be refused fails *)
   else
   match o with
   | OCreate | OCreateBatch => spec_new_rows s table false selects omits ps cells
